@@ -7,7 +7,11 @@ LEVEL = "proof"
 THEOREMS = ['C12_mul_ok', 'C12_mul_wf', 'C12_mul_base_rate', 'C12_mul_projection', 'C12_comul_ok', 'C12_comul_wf', 'C12_comul_base_rate', 'C12_comul_projection', 'C12_mul_comm', 'C12_comul_comm', 'C12_de_morgan', 'C12_de_morgan_dual', 'C12_mul_assoc', 'C12_comul_assoc', 'C12_defined_iff']
 RULE = ("bmul/bcomul on pairs of well-formed binomial opinions: 1/8 grid (exhaustive in thorough, sampled in quick), "
         "random dyadic grids up to 1/64, arbitrary floats; blaw kinds 0..5 (commutativity, associativity, De Morgan) on "
-        "pairs/triples; f32+f64. non-trivial = implementation returned a value")
+        "pairs/triples; variant `p` (bmul/bcomul also report BOpinion::projection() of both operands and of the result: the method must "
+        "answer b+a*u and obey the product/coproduct law itself) on grid, dyadic and float operands incl. d>b with base rates away from 1/2, "
+        "and bproj on single opinions; variant `alias` (the SAME object as both operands: x.mul(&x), x.comul(&x), and blaw with y aliased "
+        "to x); a panic on exactly well-formed operands inside the domain is reported here (no hand-over to C19); f32+f64. "
+        "non-trivial = implementation returned a value")
 EXHAUSTIVE = {}
 nontrivial = default_nontrivial
 LEVEL_TEXT = ("Theorems over the exact model for all rational well-formed operands: mul/comul are well-formed, have base rate "
@@ -69,6 +73,42 @@ def cases(rng, tier):
                 out.append(G.line(rng.choice(["bmul", "bcomul"]), fmt, "B.o", [], x + y))
             else:
                 out.append(G.line("blaw", fmt, "B.o", [rng.randint(0, 5)], x + y + z))
+
+        def operand():
+            z = rng.random()
+            if z < 0.35:
+                return list(rng.choice(grid))
+            if z < 0.7:
+                return G.rand_bop(rng, rng.choice([16, 32, 64]))
+            if z < 0.8:
+                # disbelief above belief, base rate away from 1/2, uncertainty present (dyadic: exactly well-formed)
+                den = rng.choice([8, 16, 64])
+                u = rng.randint(1, den - 2)
+                d = rng.randint((den - u) // 2 + 1, den - u)
+                return [Fr(den - u - d, den), Fr(d, den), Fr(u, den), Fr(rng.choice([1, 2, 3, den - 3, den - 2, den - 1]), den)]
+            return G.float_bop(rng, fmt)
+        # the projection() METHOD (variant `p`; bproj for single opinions, also the nearly dogmatic / nearly vacuous ones)
+        for _ in range(N):
+            x, y = operand(), operand()
+            out.append(G.line(rng.choice(["bmul", "bcomul"]), fmt, "B.o.p", [], x + y))
+        for _ in range(N // 2):
+            x = operand()
+            if rng.random() < 0.25:
+                u = G.round_fmt(fmt, 10.0 ** (-rng.uniform(3, 15 if fmt == "f64" else 6.5)))
+                if rng.random() < 0.5:
+                    u = G.round_fmt(fmt, 1.0 - u)
+                rest = G.round_fmt(fmt, 1.0 - u)
+                b = G.round_fmt(fmt, rest * rng.choice([0.0, 0.25, 0.5, 1.0, rng.random()]))
+                x = [b, G.round_fmt(fmt, rest - b), u, x[3]]
+            out.append(G.line("bproj", fmt, "B.o", [], x))
+        # aliased operands: the very same object on both sides
+        for _ in range(N):
+            x, z = operand(), operand()
+            r = rng.random()
+            if r < 0.5:
+                out.append(G.line(rng.choice(["bmul", "bcomul"]), fmt, rng.choice(["B.o.alias", "B.o.p.alias"]), [], x + x))
+            else:
+                out.append(G.line("blaw", fmt, "B.o.alias", [rng.randint(0, 5)], x + x + z))
     return out
 
 
